@@ -626,6 +626,64 @@ func (h *Hist) step() {
 		if f, ok := h.pickFile(); ok {
 			h.W("rm", f, nil)
 		}
+	case "case-twin-commit":
+		// branches whose names differ only in letter case, reached by create / rename / switch -c in a random
+		// order, then a commit on one of them: the commit must move exactly the branch HEAD names
+		if cur, ok := h.obs.headBranch(); ok && len(h.obs.Branches) > 0 {
+			variants := func(n string) []string {
+				out := []string{strings.ToUpper(n), strings.ToLower(n)}
+				if len(n) > 0 {
+					out = append(out, strings.ToUpper(n[:1])+strings.ToLower(n[1:]), strings.ToLower(n[:1])+strings.ToUpper(n[1:]))
+				}
+				return out
+			}
+			for i := 0; i < 2+r.intn(3); i++ {
+				base := cur
+				if b, ok := h.pickBranch(); ok && r.chance(1, 2) {
+					base = b
+				}
+				v := r.pick(variants(base))
+				switch r.intn(4) {
+				case 0:
+					h.X(tz, "branch", v)
+				case 1:
+					h.X(tz, "branch", "-r", v)
+				case 2:
+					h.X(tz, "switch", "-c", v)
+				default:
+					h.X(tz, "switch", v)
+				}
+			}
+			h.W("write", h.randPath(), h.content())
+			h.X(tz, "add", ".")
+			h.X(tz, "commit", "-m", msg())
+			h.X(tz, "branch", "--list")
+		}
+	case "dir-gone-probe":
+		// a tracked directory D vanishes from the disk as a whole while tracked siblings whose names extend D's
+		// name (with bytes sorting below and above '/') stay, one of them rewritten identically, one edited:
+		// `status` must call exactly D's files deleted
+		if d, ok := h.pickDir(); ok && IsTrackedDir(h.obs, d) {
+			for _, suf := range []string{r.pick([]string{"2", "_old", "s", "z"}), r.pick([]string{"-doc", ".txt", " x"})} {
+				sib := d + suf
+				if _, exists := h.obs.Files[sib]; !exists && !isDirIn(h.obs, sib) {
+					if r.chance(1, 2) {
+						h.W("write", sib, h.content())
+					} else {
+						h.W("write", sib+"/"+h.comp(), h.content())
+					}
+				}
+			}
+			h.X(tz, "add", ".")
+			if r.chance(1, 2) {
+				h.X(tz, "commit", "-m", "before the directory goes")
+			}
+			h.W("rmall", d, nil)
+			if f, ok := h.pickFile(); ok && r.chance(1, 2) {
+				h.W("write", f, h.obs.Files[f])
+			}
+			h.X(tz, "status")
+		}
 	case "hard-rmdir":
 		// a tracked directory D with a file directly in it, a tracked sibling whose name extends D's name with a
 		// byte that sorts below '/', everything committed; then D vanishes from the working tree and
